@@ -22,6 +22,61 @@ pub enum Tree {
 	List(Vec<Tree>),
 }
 
+/// a user-defined owning pointer implementing the public wrapper traits the documented way
+/// (it inherits the provided `decode_wrapped`), used as the recursion point of a list
+pub struct Ptr<T>(pub Box<T>);
+impl<T> From<T> for Ptr<T> {
+	fn from(t: T) -> Self {
+		Ptr(Box::new(t))
+	}
+}
+impl<T> std::ops::Deref for Ptr<T> {
+	type Target = T;
+	fn deref(&self) -> &T {
+		&self.0
+	}
+}
+impl<T> parity_scale_codec::WrapperTypeEncode for Ptr<T> {}
+impl<T> parity_scale_codec::WrapperTypeDecode for Ptr<T> {
+	type Wrapped = T;
+}
+impl<T: DecodeWithMemTracking> DecodeWithMemTracking for Ptr<T> {}
+impl<T: PartialEq> PartialEq for Ptr<T> {
+	fn eq(&self, o: &Self) -> bool {
+		self.0 == o.0
+	}
+}
+impl<T: std::fmt::Debug> std::fmt::Debug for Ptr<T> {
+	fn fmt(&self, f: &mut std::fmt::Formatter<'_>) -> std::fmt::Result {
+		self.0.fmt(f)
+	}
+}
+#[derive(Encode, Decode, DecodeWithMemTracking, Debug, PartialEq)]
+pub enum PList {
+	#[codec(index = 0)]
+	Nil(u8),
+	#[codec(index = 1)]
+	Cons(Ptr<PList>),
+}
+impl PList {
+	/// the provided decode_wrapped descends and ascends but announces no allocation
+	pub fn rdef() -> String {
+		"[(0, [FTy (TPrim 1)]); (1, [FBox 0])]".to_string()
+	}
+	fn nesting(&self) -> u32 {
+		match self {
+			PList::Nil(_) => 0,
+			PList::Cons(p) => 1 + p.0.nesting(),
+		}
+	}
+	fn coq(&self) -> String {
+		match self {
+			PList::Nil(x) => format!("(VVar 0 (VPair (VN {x}) VUnit))"),
+			PList::Cons(p) => format!("(VVar 1 (VPair {} VUnit))", p.0.coq()),
+		}
+	}
+}
+
 impl Tree {
 	pub fn rdef() -> String {
 		let sz = size_of::<Tree>();
@@ -200,14 +255,16 @@ pub fn deep_main(a: &[String]) {
 	let depth: usize = a[1].parse().unwrap();
 	let limit: Option<u32> = a[2].parse().ok();
 	let stack_kb: usize = a[3].parse().unwrap();
-	let inp = Tree::chain(kind, depth);
+	let inp = Tree::chain(if kind == 3 { 0 } else { kind }, depth);
 	let h = std::thread::Builder::new()
 		.stack_size(stack_kb * 1024)
 		.spawn(move || {
 			let mut s = &inp[..];
-			let ok = match limit {
-				Some(l) => Tree::decode_with_depth_limit(l, &mut s).is_ok(),
-				None => Tree::decode(&mut s).is_ok(),
+			let ok = match (limit, kind) {
+				(Some(l), 3) => PList::decode_with_depth_limit(l, &mut s).map(std::mem::forget).is_ok(),
+				(None, 3) => PList::decode(&mut s).map(std::mem::forget).is_ok(),
+				(Some(l), _) => Tree::decode_with_depth_limit(l, &mut s).is_ok(),
+				(None, _) => Tree::decode(&mut s).is_ok(),
 			};
 			// a decoded deep value is dropped iteratively here so that only the decode is measured
 			ok
@@ -312,11 +369,32 @@ pub fn run(cx: &mut Cx) {
 					}
 				}
 			}
+			// the list through the user-defined pointer: every limit around its nesting
+			for n in [0usize, 1, 2, 5, 30] {
+				let inp = Tree::chain(0, n);
+				for l in 0..=(n as u32 + 2).min(8) {
+					let known = cx.rng.chance(1, 2);
+					let r: RRes<PList> = dec_stack::<PList>(&inp, known, &[Layer::Depth(l)]);
+					let rc = match &r {
+						RRes::Ok(v, c, st) => format!("(ROk' {} {} [{}])", v.coq(), c, st.iter().map(|x| x.to_string()).collect::<Vec<_>>().join("; ")),
+						RRes::Err(st) => format!("(RErr' [{}])", st.iter().map(|x| x.to_string()).collect::<Vec<_>>().join("; ")),
+						RRes::Panic => "RPanic'".to_string(),
+					};
+					cx.stats.bump("plist/depth");
+					cx.cases.push(format!("(GRecRun {} {} {} [(LDepth {l})] {} {})", PList::rdef(), l as usize + 1, b(known), blist(&inp), rc), format!("PList\tplist\t{}\td{l}\t{}", known as u8, hex(&inp)), true);
+					let ok = matches!(&r, RRes::Ok(v, _, _) if v.nesting() == n as u32);
+					cx.oracle.check(ok == (l as usize >= n), if ok { "depth-limit-accepts-too-deep" } else { "depth-limit-rejects-shallow" }, || format!("PList chain of {n} through a user-defined WrapperTypeDecode pointer, limit {l}: {}", rc));
+					if let RRes::Ok(v, _, _) = r {
+						// not dropped recursively on purpose for long chains
+						drop(v);
+					}
+				}
+			}
 			// adversarially deep input on a small fixed-size stack: the limited decode must answer
 			// (an error below the nesting, the value at or above it) without exhausting the stack
 			if cx.only.is_none() {
 				let deep = if t { 1_000_000 } else { 200_000 };
-				for kind in 0..3u32 {
+				for kind in 0..4u32 {
 					for l in [0u32, 1, 16, 64] {
 						let r = deep_child(kind, deep, Some(l), 256);
 						cx.stats.bump("tree/deep-small-stack");
